@@ -1,17 +1,26 @@
 #!/bin/sh
-# Detection demonstration: for every patch mutations/<Cxx>_<name>.patch (optionally filtered by $1 = Cxx)
-# apply it to /repo, run the quick check of Cxx, expect exit 1 (VIOLATION), then restore /repo.
+# Detection demonstration: for every patch mutations/<Cxx>_<name>.patch (optionally filtered by $1 = prefix)
+# apply it to the repo, run the quick check of Cxx, expect exit 1 (VIOLATION), then restore the repo.
 # Prints one line per patch: DETECTED / MISSED / NOAPPLY / MACHINERY. Exit 0 iff every patch was DETECTED.
+# By default works on /repo with /verif/check. With MUT_WS=/tmp/hw_M (a scratch workspace made by mk_ws.sh)
+# it works on $MUT_WS/repo and $MUT_WS/harness instead, leaving /repo alone.
 cd /verif || exit 2
-if [ -n "$(git -C /repo status --porcelain --untracked-files=no)" ]; then echo "/repo has uncommitted changes; refusing" >&2; exit 2; fi
+if [ -n "${MUT_WS:-}" ]; then
+  R=$MUT_WS/repo
+  runcheck() { (cd $MUT_WS/harness && cargo build --release --offline -q 2>$MUT_WS/build.log) || { tail -20 $MUT_WS/build.log; return 2; }; VERIF_ROOT=$MUT_WS/out $MUT_WS/target/release/vcheck "$@"; }
+else
+  R=/repo
+  runcheck() { ./check "$@"; }
+fi
+if [ -n "$(git -C $R status --porcelain --untracked-files=no)" ]; then echo "$R has uncommitted changes; refusing" >&2; exit 2; fi
 rc=0
 for p in mutations/${1:-C}*.patch; do
   [ -f "$p" ] || continue
   id=$(basename "$p" | cut -d_ -f1)
-  if ! git -C /repo apply --check "/verif/$p" 2>/dev/null; then echo "NOAPPLY   $p"; rc=1; continue; fi
-  git -C /repo apply "/verif/$p"
-  out=$(./check "$id" --tier quick 2>&1); code=$?
-  git -C /repo checkout -- . >/dev/null 2>&1
+  if ! git -C $R apply --check "/verif/$p" 2>/dev/null; then echo "NOAPPLY   $p"; rc=1; continue; fi
+  git -C $R apply "/verif/$p"
+  out=$(runcheck "$id" --tier quick 2>&1); code=$?
+  git -C $R checkout -- . >/dev/null 2>&1
   sig=$(printf '%s\n' "$out" | grep -m1 'signature:' | sed 's/^ *signature: //')
   case $code in
     1) echo "DETECTED  $p  [$sig]";;
